@@ -867,12 +867,13 @@ def run(tier, seed, only=None):
                 for eop in (0, 2):
                     if (opi, eop) != (0, 0):
                         obls.append(pre_ob(2, 1, opi, eop, False, None, 400, True))
-            # N=3, union interrupted by union: one query per static pause site
-            for site in us:
+            # N=3, union interrupted by union: one query per static pause site from the rank reads to the end of unionNodes
+            # (the pause sites inside the two findNode loops are covered at N=2 with all sites in one query)
+            for site in us[-6:]:
                 obls.append(pre_ob(3, 1, 0, 0, False, site, 400, True))
             # (b2) abstract environment (ghost invariant asserted on every own CAS)
             rg = os.path.join(work, "uf_rg.c")
-            for n, e in ((2, 1), (2, 2)):
+            for n, e in ((2, 1),):
                 for opi, opn in enumerate(OPS):
                     name = "rg:%s:N=%d:E=%d:allsites" % (opn, n, e)
                     obls.append(K.Obligation(name, [rg], defines=["NN=%d" % n, "OP=%d" % opi, "ENV=%d" % e, "MODEL_LINK_RANK=%d" % K29["model_link_rank"]],
